@@ -25,7 +25,7 @@ def _impl(tier, seed, search):
     from spatialmath import SO2, SE2, SO3, SE3, Quaternion, UnitQuaternion, Twist2, Twist3
     from spatialmath.geom3d import Plucker
     g = inputs.rng(seed)
-    L = Laws('C10', rule='every operation sequence up to length 3 (quick) / 4 (thorough) over the operation alphabet from start lengths 0..3/4, '
+    L = Laws('C10', rule='every operation sequence up to length 2 (quick) / 3 (thorough) over the 42-operation alphabet from start lengths 0..3/4, '
                          'all slices with start, stop in {None,-7..7}, step in {None,+-1,+-2,+-3}, all indices -7..7, seeded random sequences '
                          'up to length 60, every list-capable class; a case = one operation compared with a Python list')
     CL = dict(SO2=(SO2, lambda: inputs.so2(g)), SE2=(SE2, lambda: inputs.se2(g, 1)), SO3=(SO3, lambda: inputs.so3(g)), SE3=(SE3, lambda: inputs.se3(g, 1)),
@@ -128,7 +128,7 @@ def _impl(tier, seed, search):
             return None
         if not same(X, ref): return f'after {kind}({arg}) the object (len {len(X)}) differs from the reference list (len {len(ref)})'
         return None
-    maxseq = 3 if tier == 'quick' else 4
+    maxseq = 2 if tier == 'quick' else 3
     maxstart = 3 if tier == 'quick' else 4
     classes = list(CL) if tier != 'quick' else ['SE3', 'SO2', 'UnitQuaternion', 'Twist3']
     if search: classes = list(CL)
